@@ -1,0 +1,53 @@
+"""
+Verification tracing hook (inactive unless CONSTRUCT_VERIF_TRACE=1, see end of construct/core.py).
+
+When installed, the three methods of the documented subclass API (_parse, _build, _sizeof) of every
+Construct subclass are wrapped so that an external observer (the `sink`) is told when a construct is
+entered and left, in the calling thread, before the caller can observe the outcome. The wrapper never
+touches the stream, never alters arguments, results or exceptions, and is a pass-through while no sink
+is set. This module imports nothing from construct.
+"""
+
+import functools
+
+sink = None
+
+_OPS = (("_parse", "parse"), ("_build", "build"), ("_sizeof", "sizeof"))
+
+
+def _make(op, fn):
+    @functools.wraps(fn)
+    def wrapper(self, *args):
+        s = sink
+        if s is None:
+            return fn(self, *args)
+        s("enter", self, op, args, None, None)
+        try:
+            ret = fn(self, *args)
+        except BaseException as e:
+            s("leave", self, op, args, None, e)
+            raise
+        s("leave", self, op, args, ret, None)
+        return ret
+    wrapper._verif_wrapped = True
+    return wrapper
+
+
+def _wrapclass(cls):
+    for name, op in _OPS:
+        fn = cls.__dict__.get(name)
+        if fn is not None and callable(fn) and not getattr(fn, "_verif_wrapped", False):
+            setattr(cls, name, _make(op, fn))
+
+
+def install(base):
+    def walk(cls):
+        _wrapclass(cls)
+        for sub in cls.__subclasses__():
+            walk(sub)
+    walk(base)
+
+    def __init_subclass__(cls, **kw):
+        super(base, cls).__init_subclass__(**kw)
+        _wrapclass(cls)
+    base.__init_subclass__ = classmethod(__init_subclass__)
